@@ -303,6 +303,8 @@ type prefixJob struct {
 	History History `json:"history"`
 	Ns      []int64 `json:"ns"`     // explicit prefix lengths; empty: every byte
 	Stride  int64   `json:"stride"` // with empty Ns: every Stride-th byte plus block boundaries +-1
+	TmoMs   int     `json:"tmo_ms"` // watchdog per evaluated prefix (default 5000 ms)
+	Par     int     `json:"par"`    // prefixes evaluated in parallel (default 12)
 	From    int64   `json:"from"`   // with empty Ns: only prefix lengths in [From, To) (To = 0: no upper bound); every evaluated
 	To      int64   `json:"to"`     // prefix leaves an index database open in this process, so long sweeps are cut into chunks
 }
@@ -397,7 +399,14 @@ func cmdPrefix(args []string, w *bufio.Writer) {
 		pr  prefixResult
 	}
 	out := make([]prefixResult, len(ns))
-	sem := make(chan struct{}, 12)
+	par, tmo := job.Par, time.Duration(job.TmoMs)*time.Millisecond
+	if par <= 0 {
+		par = 12
+	}
+	if tmo <= 0 {
+		tmo = 5 * time.Second
+	}
+	sem := make(chan struct{}, par)
 	var wg sync.WaitGroup
 	var mu sync.Mutex
 	sigSeen := map[string]bool{}
@@ -451,7 +460,7 @@ func cmdPrefix(args []string, w *bufio.Writer) {
 				} else {
 					pr.Class = "ok"
 				}
-			case <-time.After(5 * time.Second):
+			case <-time.After(tmo):
 				pr.Class = "HANG"
 				out[i] = pr
 				return
@@ -502,7 +511,7 @@ func cmdPrefix(args []string, w *bufio.Writer) {
 			}()
 			select {
 			case <-fd:
-			case <-time.After(10 * time.Second):
+			case <-time.After(2 * tmo):
 				pr.Fetch = []map[string]interface{}{{"name": "*", "err": "HANG"}}
 			}
 			out[i] = pr
